@@ -6,7 +6,7 @@ Obligations re-checked against the REGENERATED tables on every run:
 All by kernel evaluation (`decide +kernel`), no axioms beyond the usual three.
 -/
 import RosedVerif.Gem.Concrete
-import RosedVerif.Ref.Tables
+import RosedVerif.Gem.Ref13
 namespace RosedVerif
 open Gen
 set_option maxRecDepth 1000000
@@ -47,15 +47,6 @@ theorem goPreds_eq_cls (r : Int) :
     goPreds.zwj r = (classOf r == .zwj) ∧ goPreds.extpict r = (classOf r == .extpict) := by
   refine ⟨?_, ?_, ?_, ?_, ?_, ?_, ?_, ?_, ?_, ?_, ?_, ?_, ?_, ?_⟩ <;>
     (rw [classOf_table _ (by decide)]; rfl)
-
-/-- reference table of class `X` (Unicode 13.0.0) -/
-def refTable : Cls → List (Nat × Nat)
-  | .other => []
-  | .cr => Ref.crRanges | .lf => Ref.lfRanges | .control => Ref.controlRanges
-  | .extend => Ref.extendRanges | .zwj => Ref.zwjRanges | .ri => Ref.riRanges
-  | .prepend => Ref.prependRanges | .spacing => Ref.spacingRanges
-  | .l => Ref.lRanges | .v => Ref.vRanges | .t => Ref.tRanges
-  | .lv => Ref.lvRanges | .lvt => Ref.lvtRanges | .extpict => Ref.extpictRanges
 
 theorem tables_eq_ref_prepend : sameRanges (goTable .prepend) (refTable .prepend) = true := by decide +kernel
 theorem tables_eq_ref_cr : sameRanges (goTable .cr) (refTable .cr) = true := by decide +kernel
